@@ -376,6 +376,8 @@ def run(tier, only_differential=False):
     res, recs, lst = model(wd, table)
     tierkey = "quick" if tier == "quick" else "thorough"
     chosen = [r for r in recs if r[tierkey]]
+    if tier == "thorough" and os.environ.get("VERIF_C19_ALL") == "1":
+        chosen = list(recs)      # every reachable configuration of every crate (840; not measured, est. ~100 min)
     all_supported = supported(table)
     C.log("[C19] model: %d configurations (%s), %d open; %d selected for cargo (%s)" %
           (len(recs), dict(collections.Counter(r["crate"] for r in recs)),
